@@ -31,6 +31,18 @@ def _build(rng, xs, ys, form):
         c = CurveFitting([0, 1, 2], [5, 7, 1])
         c.set(list(xs), list(ys))
         return c
+    if form == "asked_then_set":
+        # an object that has already answered every question about OTHER data, then is given these: whatever the first
+        # answers left behind in it must not leak into the fit of the data set last
+        c = CurveFitting([0, 1, 2, 4], [5, 7, 1, -3])
+        for q in (c.linear_fitting, c.quadratic_fitting, c.correlation_coeff,
+                  lambda: c.general_fitting(lambda x: x * x, lambda x: x, lambda x: 1.0)):
+            try:
+                q()
+            except Exception:
+                pass
+        c.set(list(xs), list(ys))
+        return c
     if form == "ylonger":
         return CurveFitting(list(xs), list(ys) + [123.25, -7.5])       # surplus ordinates belong to no pair
     if form == "xlonger":
@@ -106,7 +118,7 @@ def gen_fit(seed, shard, n):
             rng.shuffle(idx)
         xs = [xs[i] for i in idx]
         ys = [ys[i] for i in idx]
-        form = rng.choice(["lists", "tuples", "flat", "set", "copy", "copy_reset", "ylonger", "xlonger"])
+        form = rng.choice(["lists", "tuples", "flat", "set", "asked_then_set", "copy", "copy_reset", "ylonger", "xlonger"])
         if form == "flat" and len(xs) < 2:
             form = "lists"
         try:
